@@ -111,7 +111,7 @@ func (it *Interp) runInit() {
 	it.inInit = true
 	it.epoch = 0
 	defer func() { it.inInit = false; it.epoch = 1 }()
-	ps := &PathState{harness: "<init>", domains: map[int]*bset{}, entangled: map[int]bool{}, symW: map[int]uint8{}, vioSeen: map[string]bool{}, sites: map[*mergeSite]*siteStat{}}
+	ps := &PathState{harness: "<init>", domains: map[int]*bset{}, entangled: map[int]bool{}, symW: map[int]uint8{}, vioSeen: map[string]bool{}, sites: map[*mergeSite]*siteStat{}, masks: map[*Term]bset{}}
 	it.ps = ps
 	defer func() { it.ps = nil }()
 	initFn := it.p.mainPkg.Func("init")
